@@ -205,7 +205,8 @@ class Builder:
 
 
 def gen_model(rng, d, arith, allow=None):
-    fams = [("linear", 28), ("hash", 28), ("inter", 8), ("const", 5), ("multi", 18), ("zerosum", 5), ("riverlabel", 8)]
+    fams = [("linear", 28), ("hash", 28), ("inter", 8), ("const", 5), ("multi", 18), ("zerosum", 5), ("riverlabel", 8),
+            ("riverint", 6 if arith == "float" else 0)]
     if arith in ("npfloat", "npfloat32"):
         fams = [f for f in fams if f[0] != "zerosum"]
     if arith == "exact":
@@ -227,12 +228,17 @@ def gen_model(rng, d, arith, allow=None):
     if d >= 2 and rng.random() < 0.3 and fam != "const":
         k = rng.randint(1, max(1, d - 1))
         m["ignore"] = sorted(rng.sample(range(d), k))
-    if rng.random() < 0.15 and fam != "riverlabel":
+    if rng.random() < 0.15 and fam not in ("riverlabel", "riverint"):
         m["style"] = "plain"
     return m
 
 
 def gen_loss(rng, arith, model):
+    if arith == "float" and model["family"] in ("linear", "hash", "inter", "const", "riverint") and \
+            (model["family"] == "riverint" or rng.random() < 0.15):
+        # the deployment of the repository's examples: a real river metric object as (shared) loss
+        metric = "Accuracy" if model["family"] == "riverint" and rng.random() < 0.7 else rng.choice(["MSE", "MAE"])
+        return {"family": "river", "metric": metric, "seed": 0, "sig": "pos"}
     if arith == "exact":
         fam = wchoice(rng, [("hash", 40), ("sq", 30), ("abs", 15), ("lin", 15)])
     else:
